@@ -182,8 +182,15 @@ def dead_parameters(ctx, rule="RP"):
             continue
         if all(p.exit == "raise" for p in fa.paths) and not any(e.kind != "call" for p in fa.paths for e in p.events):
             continue          # abstract placeholder (raise NotImplementedError)
-        for prm in f.params:
+        for prm in list(f.params) + ([("**" + f.kwarg)] if f.kwarg else []):
             if prm in ("self", "cls"):
+                continue
+            if prm.startswith("**"):
+                # **kwargs that are accepted and then dropped: documented pass-through options silently stop working
+                import ast as _ast
+                used = any(isinstance(n, _ast.Name) and n.id == f.kwarg and isinstance(n.ctx, _ast.Load) for n in _ast.walk(f.node))
+                ctx.check(rule, "%s|parameter-consumed|%s" % (qn, prm), True if used else False, "the extra keyword arguments are consumed",
+                          bad="%s accepts **%s and never uses it: extra keyword arguments (documented as passed on) are silently dropped" % (qn.split(".", 1)[1], f.kwarg), fn=qn, nontrivial=False)
                 continue
             used = _mentions_param(fa, prm)
             ctx.check(rule, "%s|parameter-consumed|%s" % (qn, prm), True if used else False, "parameter '%s' is consumed (it reaches a call, a condition, a store or the result)" % prm,
@@ -430,6 +437,26 @@ def scope(ctx):
     for q, f in ctx.pkg.functions.items():
         if f.cls is not None and f.cls.qual in family and q not in inv:
             out.add(q)
+    # new module-level functions (not in the inventory) that the consulted functions refer to by name, transitively: a step moved into a
+    # helper is still part of what the property's functions do
+    import ast
+    new_by_name = {}
+    for q, f in ctx.pkg.functions.items():
+        if q not in inv and f.cls is None and "<locals>" not in q:
+            new_by_name.setdefault(f.name, []).append(q)
+    if new_by_name:
+        todo = list(out)
+        while todo:
+            q = todo.pop()
+            f = ctx.pkg.functions.get(q)
+            if f is None:
+                continue
+            for n in ast.walk(f.node):
+                nm = n.id if isinstance(n, ast.Name) else (n.attr if isinstance(n, ast.Attribute) else None)
+                for q2 in new_by_name.get(nm, ()):
+                    if q2 not in out:
+                        out.add(q2)
+                        todo.append(q2)
     return sorted(out)
 
 
@@ -664,3 +691,130 @@ def set_iteration_order(ctx, rule="RS"):
         ctx.check(rule, qn + "|no-order-taken-from-a-set", False if bad else True, "no ordered result is built by iterating over a set", fn=qn, nontrivial=False,
                   bad=(bad[0] + ": the order of a set of strings depends on the interpreter's hash seed, so repeated runs return differently ordered output (wrap it in sorted(...))") if bad else "",
                   line=bad[1] if bad else None)
+
+
+MEMO_DECORATORS = ("lru_cache", "functools.lru_cache", "functools.cache", "cache", "cached_property", "functools.cached_property", "memoize", "memory.cache")
+
+
+def memoised_results(ctx, rule="RM"):
+    """A memoising decorator (functools.lru_cache / cache / cached_property ...) on a function makes every call with equal arguments return
+    the SAME object and keeps it alive between calls.  For a function that hands out arrays or other mutable containers, what one caller does
+    to its result (an in-place unit conversion, a sort) is then seen by every later caller: the result no longer depends on the arguments
+    alone.  (It also turns unhashable arguments - lists, arrays - into a TypeError.)"""
+    for qn in scope(ctx):
+        f = ctx.pkg.functions[qn]
+        memo = [d for d in f.decorators if any(d == m or d.startswith(m + "(") for m in MEMO_DECORATORS)]
+        if not memo:
+            ctx.check(rule, qn + "|not-memoised", True, "results are computed afresh on every call", fn=qn, nontrivial=False)
+            continue
+        fa = ctx.an.fa(qn)
+        mutable = None
+        if fa.ok:
+            vals = [p.value for p in fa.paths if p.exit == "return" and isinstance(p.value, tuple)]
+            immutable = lambda t: is_const(t) or (t[0] == "tuple" and all(immutable(x) for x in t[1])) or (t[0] == "call" and callee(t) in ("builtins.int", "builtins.float", "builtins.len", "builtins.round", "builtins.str", "builtins.bool"))  # noqa: E731
+            mutable = not all(immutable(v) for v in vals) if vals else None
+        ctx.check(rule, qn + "|not-memoised", False if mutable else None, "results are computed afresh on every call", fn=qn,
+                  bad="@%s: calls with equal arguments return one and the same mutable object, kept between calls - a caller that modifies its result in place changes what every later call returns" % memo[0])
+
+
+def falsy_defaults(ctx, rule="RZ"):
+    """`value = parameter or DEFAULT` replaces every FALSY argument by the default, not only None.  For a parameter the docstring declares
+    as a number (float / int / scalar) the legal value 0 is silently replaced (mindist=0, extra_coords=0, random_state=0 ...)."""
+    import ast
+    import re
+    from .. import contracts
+    for qn in scope(ctx):
+        fa = ctx.an.fa(qn)
+        if not fa.ok:
+            continue
+        f = ctx.pkg.functions[qn]
+        docs = dict(contracts.numpydoc_params(f.docstring()))
+        cdocs = contracts.numpydoc_params(ast.get_docstring(f.cls.node) or "") if f.cls is not None else {}
+        bad = None
+        for p in fa.paths:
+            terms = [d for e in p.events for d in e.data if isinstance(d, tuple)] + ([p.value] if isinstance(p.value, tuple) else [])
+            for t in terms:
+                for x in walk(t):
+                    if not (isinstance(x, tuple) and x and x[0] == "boolop" and x[1] == "Or" and len(x[2]) >= 2):
+                        continue
+                    first = x[2][0]
+                    if first[0] == "param":
+                        nm, entry = first[1], docs.get(first[1].lstrip("*"))
+                    elif Q.is_self_attr(first):
+                        nm, entry = "self." + first[2], cdocs.get(first[2])
+                    else:
+                        continue
+                    if entry and re.search(r"\b(float|int|integer|number|scalar)\b", entry.split("\n")[0]) and not (is_const(x[2][1]) and x[2][1][1] in (0, 0.0, False)):
+                        bad = bad or ("`%s or %s`: a %s of 0 is a legal value (documented as `%s`) but is replaced by the default like None" % (nm, show(x[2][1])[:30], nm, entry.split("\n")[0][:40]), p.line)
+        ctx.check(rule, qn + "|zero-is-not-treated-as-missing", False if bad else True, "no numeric parameter is defaulted with `or`", fn=qn, nontrivial=False,
+                  bad=bad[0] if bad else "", line=bad[1] if bad else None)
+
+
+def chunked_loops(ctx, rule="RC"):
+    """`for k in range(n // b): ... x[k * b:(k + 1) * b] ...` visits the n // b FULL blocks only: unless the remainder is handled (a ceiling
+    count, a tail slice, a test on n % b) the last n % b elements are never processed - silently, and only for sizes that are not a multiple
+    of the block size."""
+    import ast
+
+    def has_floor_count(e):
+        """the expression is a floor-division count: N // B, possibly inside max(1, .) / int(.)"""
+        if isinstance(e, ast.BinOp) and isinstance(e.op, ast.FloorDiv):
+            # ceiling idioms: -(-n // b), (n + b - 1) // b
+            if isinstance(e.left, ast.UnaryOp) and isinstance(e.left.op, ast.USub):
+                return None
+            if isinstance(e.left, ast.BinOp) and isinstance(e.left.op, (ast.Add, ast.Sub)):
+                return None
+            return e
+        if isinstance(e, ast.Call) and isinstance(e.func, ast.Name) and e.func.id in ("max", "int") and e.args:
+            for a in e.args:
+                r = has_floor_count(a)
+                if r is not None:
+                    return r
+        return None
+
+    for qn in scope(ctx):
+        f = ctx.pkg.functions[qn]
+        assigns = {}
+        for n in ast.walk(f.node):
+            if isinstance(n, ast.Assign) and len(n.targets) == 1 and isinstance(n.targets[0], ast.Name):
+                assigns.setdefault(n.targets[0].id, []).append(n.value)
+        bad = und = None
+        for loop in [n for n in ast.walk(f.node) if isinstance(n, ast.For)]:
+            it = loop.iter
+            if not (isinstance(it, ast.Call) and isinstance(it.func, ast.Name) and it.func.id == "range" and len(it.args) == 1 and isinstance(loop.target, ast.Name)):
+                continue
+            cnt = it.args[0]
+            if isinstance(cnt, ast.Name) and len(assigns.get(cnt.id, ())) == 1:
+                cnt = assigns[cnt.id][0]
+            fd = has_floor_count(cnt)
+            if fd is None:
+                continue
+            bsrc = ast.unparse(fd.right)
+            k = loop.target.id
+            # a slice whose lower bound is k * b
+            local = {n.targets[0].id: n.value for b in loop.body for n in ast.walk(b) if isinstance(n, ast.Assign) and len(n.targets) == 1 and isinstance(n.targets[0], ast.Name)}
+
+            def is_kb(e):
+                if isinstance(e, ast.Name) and e.id in local:
+                    e = local[e.id]          # start = k * b; x[start:start + b]
+                return isinstance(e, ast.BinOp) and isinstance(e.op, ast.Mult) and {ast.unparse(e.left), ast.unparse(e.right)} == {k, bsrc}
+            sliced = any((isinstance(n, ast.Slice) and n.lower is not None and is_kb(n.lower)) or
+                         (isinstance(n, ast.Call) and isinstance(n.func, ast.Name) and n.func.id == "slice" and n.args and is_kb(n.args[0])) for b in loop.body for n in ast.walk(b))
+            if not sliced:
+                continue
+            inside = {id(n) for b in loop.body for n in ast.walk(b)}
+            tail = any(isinstance(n, ast.Slice) and n.upper is None and n.lower is not None and id(n) not in inside for n in ast.walk(f.node))
+            rem = any(isinstance(n, ast.BinOp) and isinstance(n.op, ast.Mod) and ast.unparse(n.right) == bsrc for n in ast.walk(f.node)) or \
+                any(isinstance(n, ast.Call) and isinstance(n.func, ast.Name) and n.func.id == "divmod" for n in ast.walk(f.node))
+            cnt_names = {ast.unparse(it.args[0]), ast.unparse(fd)}
+            covered = any(isinstance(n, ast.Slice) and n.upper is None and isinstance(n.lower, ast.BinOp) and isinstance(n.lower.op, ast.Mult) and id(n) not in inside
+                          and ({ast.unparse(n.lower.left), ast.unparse(n.lower.right)} & cnt_names) and bsrc in (ast.unparse(n.lower.left), ast.unparse(n.lower.right)) for n in ast.walk(f.node))
+            if covered:
+                continue            # x[count * b:] after the loop: the remainder is processed
+            if tail or rem:
+                und = und or ("blocks of %s in a loop of %s iterations with separate remainder handling" % (bsrc, ast.unparse(fd)), loop.lineno)
+            else:
+                bad = bad or ("the loop runs %s times over blocks [k * %s:(k + 1) * %s]: when %s is not a multiple of %s the last %s %% %s elements are never visited" % (
+                    ast.unparse(fd), bsrc, bsrc, ast.unparse(fd.left), bsrc, ast.unparse(fd.left), bsrc), loop.lineno)
+        ctx.check(rule, qn + "|blocked-loops-cover-the-remainder", False if bad else (None if und else True), "no blocked loop drops a remainder", fn=qn, nontrivial=False,
+                  bad=bad[0] if bad else "", undecided=und[0] if und else "", line=(bad or und or (None, None))[1])
